@@ -94,6 +94,22 @@ structure DescObs where
   extraKeys : List String
   deriving DecidableEq, Repr, FromJson, ToJson
 
+/-- `times` consecutive `Read` calls that each deliver `n` bytes with a nil error; if `eof`, the
+last of them delivers its bytes TOGETHER with io.EOF. `n = 0` is a zero-length read. -/
+structure ReadStep where
+  n : Nat
+  times : Nat
+  eof : Bool
+  deriving DecidableEq, Repr, FromJson, ToJson
+
+/-- the behaviour of the io.Reader a blob is handed over with. After the script the reader
+answers (0, io.EOF). `direct`: the in-memory reader itself is handed over (the consumer may
+take a fast path such as io.WriterTo); the script then is its nominal single read. -/
+structure Reader where
+  direct : Bool
+  steps : List ReadStep
+  deriving DecidableEq, Repr, FromJson, ToJson
+
 /-- a blob, abstractly: its size and its digest under each digest algorithm -/
 structure Blob where
   size : Int
@@ -109,6 +125,8 @@ structure Input where
   signer : SignerKind
   desc : FullDesc             -- oci: what Repository.Resolve returns (unused for blobs)
   blob : Blob                 -- blob: the content (unused for oci)
+  signReader : Reader         -- blob: how the reader given to notation.SignBlob delivers the content
+  verifyReader : Reader       -- blob: how the reader given to notation.VerifyBlob delivers it
   contentMediaType : String   -- blob: SignBlobOptions.ContentMediaType
   mediaTypeValid : Bool       -- blob: mime.ParseMediaType accepts it (std-lib oracle)
   metadata : List KV          -- user metadata given to the signing API
@@ -196,6 +214,24 @@ def Blob.digestUnder (b : Blob) : String → Option String
   | "SHA384" => some b.sha384
   | "SHA512" => some b.sha512
   | _ => none
+
+/-- digest of what was hashed when `n` bytes of the blob were consumed: the blob's digest when
+that is all of it; a truncated blob has some other digest -/
+def Blob.digestOfFirst (b : Blob) (alg : String) (n : Int) : Option String :=
+  match b.digestUnder alg with
+  | none => none
+  | some d => some (if n = b.size then d else "truncated:" ++ d)
+
+/-- `io.Copy(digester.Hash(), reader)` in notation.go `getDescriptorFunc`: the number of bytes
+written to the hash. io.Copy's loop is `nr, er := src.Read(buf); if nr > 0 { dst.Write(buf[:nr]) };
+if er != nil { break }`: bytes that arrive together with io.EOF are written, a zero-length
+read with a nil error just loops. -/
+def copyLoop : List ReadStep → Nat
+  | [] => 0                                   -- the exhausted reader answers (0, io.EOF)
+  | s :: rest =>
+    if s.times = 0 then copyLoop rest
+    else if s.eof then s.n * s.times
+    else s.n * s.times + copyLoop rest
 
 /-! ### cryptography as a hypothesis -/
 
@@ -355,8 +391,8 @@ def ociKeySpec (s : SignerKind) (k : KeySpec) : Option (String × Nat) :=
   | _ => some k.core
 
 /-- the descriptor `getDescriptorFunc` generates for a blob under a digest algorithm -/
-def blobDescriptor (i : Input) (dg : String) (annots : List KV) : FullDesc :=
-  { mediaType := i.contentMediaType, digest := dg, size := i.blob.size, annotations := annots,
+def blobDescriptor (i : Input) (dg : String) (size : Int) (annots : List KV) : FullDesc :=
+  { mediaType := i.contentMediaType, digest := dg, size := size, annotations := annots,
     urls := [], platform := false, data := "", artifactType := "" }
 
 /-- notation.SignOCI / notation.SignBlob -/
@@ -380,12 +416,13 @@ def signModel (C : Crypto) (key : C.Key) (i : Input) (nowNs : Int) : Option (Env
           match signerDigestAlg ks with
           | none => none
           | some da =>
-            match i.blob.digestUnder da with
+            match i.blob.digestOfFirst da (copyLoop i.signReader.steps) with
             | none => none
             | some dg =>
               match addUserMetadata [] i.metadata with
               | none => none
-              | some annots => signDesc C key i ks nowNs (blobDescriptor i dg annots)
+              | some annots =>
+                signDesc C key i ks nowNs (blobDescriptor i dg (copyLoop i.signReader.steps) annots)
 
 /-! ### verifying -/
 
@@ -424,7 +461,7 @@ def statedMediaType (i : Input) : String :=
 def zeroDesc : DescObs := { mediaType := "", digest := "", size := 0, annotations := [], extraKeys := [] }
 
 /-- verifier.VerifyBlob + notation.VerifyBlob: the returned descriptor on success -/
-def verifyBlob {C : Crypto} (trust : C.Pub → Bool) (nowSec : Int) (blob : Blob) (stated : String)
+def verifyBlob {C : Crypto} (trust : C.Pub → Bool) (nowSec : Int) (blob : Blob) (consumed : Int) (stated : String)
     (want : List KV) (e : Envelope C) : Option DescObs :=
   if !processSignature trust nowSec e then none
   else
@@ -432,14 +469,14 @@ def verifyBlob {C : Crypto} (trust : C.Pub → Bool) (nowSec : Int) (blob : Blob
     match verifierDigestAlg e.attrs.alg with
     | none => none
     | some da =>
-      match blob.digestUnder da with
+      match blob.digestOfFirst da consumed with
       | none => none
       | some dg =>
         -- getDescriptorFunc adds the required metadata to the generated descriptor
         match addUserMetadata [] want with
         | none => none
         | some _ =>
-          if dg != p.digest || blob.size != p.size || (stated != "" && stated != p.mediaType) then none
+          if dg != p.digest || consumed != p.size || (stated != "" && stated != p.mediaType) then none
           else if !kvSubset want p.annotations then none
           else if c07VerifyBlobReturns == "payload.TargetArtifact" then some p
           else some zeroDesc
@@ -465,7 +502,7 @@ def runWith (C : Crypto) (key : C.Key) (trust : C.Pub → Bool) (nowNs : Int) (i
         returned := if ok then some (fullObs i.desc) else none,
         userMetadata := if ok then some (userMetadataOf e.attrs.payload) else none }
     | .blob =>
-      match verifyBlob trust nowSec i.blob (statedMediaType i) (wantedMetadata i) e with
+      match verifyBlob trust nowSec i.blob (copyLoop i.verifyReader.steps) (statedMediaType i) (wantedMetadata i) e with
       | some r =>
         { signed := true, verified := true, payload := some e.attrs.payload, expirySec := exp,
           returned := some r, userMetadata := some (userMetadataOf e.attrs.payload) }
@@ -511,6 +548,25 @@ def runSeqWith (C : Crypto) (key : KeySpec → C.Key) (trust : C.Pub → Bool) :
     o :: runSeqWith C key trust st' rest
 
 /-! ### specification -/
+
+/-- the individual `Read` results of a script: (bytes delivered, reports io.EOF) -/
+def expandReads : List ReadStep → List (Nat × Bool)
+  | [] => []
+  | s :: rest =>
+    List.replicate (s.times - 1) (s.n, false) ++ (if s.times = 0 then [] else [(s.n, s.eof)]) ++ expandReads rest
+
+/-- the length of the byte sequence a reader stands for: everything it delivers up to and
+including the read that reports io.EOF -/
+def delivered : List (Nat × Bool) → Nat
+  | [] => 0
+  | (n, e) :: rest => if e then n else n + delivered rest
+
+def represented (r : Reader) : Nat := delivered (expandReads r.steps)
+
+/-- well-formed input: both readers of a blob case stand for exactly the blob -/
+def wf (i : Input) : Bool :=
+  i.kind == .oci ||
+  (decide ((represented i.signReader : Int) = i.blob.size) && decide ((represented i.verifyReader : Int) = i.blob.size))
 
 /-- the hash bound to a key (Notary signature specification, algorithm selection) -/
 def specDigestAlg : KeySpec → String
@@ -558,7 +614,8 @@ def expiredAtVerify (i : Input) : Bool :=
   decide (i.durationNs ≠ 0) && decide (i.durationNs / 1000000000 ≤ i.lagSec)
 
 def clauses (i : Input) (o : Obs) : Clauses :=
-  [ ("signs_iff_arguments_legal", o.signed == legal i),
+  [ ("input_well_formed", wf i),
+    ("signs_iff_arguments_legal", o.signed == legal i),
     ("signed_then_verifies", !(o.signed && consistentVerify i && !expiredAtVerify i) || o.verified),
     ("verified_only_if_signed", !o.verified || o.signed),
     ("payload_is_sanitised_descriptor_with_metadata",
